@@ -208,6 +208,10 @@ class IoModel:
         # ---- settings (serde_json) and recovery entry, abstracted for the open-gate properties
         R("serde_json::from_str", m_settings_from_str)
         R("serde_json::to_string", lambda ex, st, fr, c, a, d, r: ok(VOpaque("bytes", ("settings-json", deref_all(st, a[0])))))
+        R(["serde_json::to_vec", "to_vec", "serde_json::to_string_pretty", "serde_json::to_vec_pretty"],
+          lambda ex, st, fr, c, a, d, r: ok(VOpaque("bytes", ("settings-json", deref_all(st, a[0])))) if not isinstance(deref_all(st, a[0]), VVec) else NotImplemented)
+        R(["Error::other", "io::Error::other", "Error::from_raw_os_error"],
+          lambda ex, st, fr, c, a, d, r: ioerr("Other"))
         R("pre_create_all_cas_directories", lambda ex, st, fr, c, a, d, r: io.call(ex, st, d, r, "mkdir", VUnit(), path=("cas", "65536 dirs")))
         # ---- byte-slice algebra on opaque byte strings: ("slice", base, offset, length)
         R(["slice::chunks_exact", "slice::chunks"], m_chunks)
